@@ -257,3 +257,110 @@ def noise(rng: random.Random) -> str:
     if kind == "crlf":
         return "x = 1\r\nwhile True:\r\n    x += 1\r\n"
     return ""
+
+
+# Scripts that must be *rejected*: each one is aimed at a different diagnostic of the transpiler, so that a
+# rejection raised with the wrong exception type (or turned into an internal error) is seen.
+REJECTION_TRIGGERS = [
+    "for i in range(1, 5):\n    pass",
+    "for i in range(1, 5, 2):\n    led.toggle()",
+    "for i in range():\n    pass",
+    "break",
+    "continue",
+    "while True:\n    break",
+    "while True:\n    if 1:\n        break",
+    "return 5",
+    "def f():\n    return\n    return 1\nx = f()",
+    "def f(a):\n    if a:\n        return 'x'\n    return 1\ny = f(1)",
+    "def f(*a):\n    return 1",
+    "def f(**k):\n    return 1",
+    "def f(a, *, b):\n    return 1",
+    "def f(a=1):\n    return a",
+    "def f(a, b):\n    return a\nx = f(1)",
+    "pot = Potentiometer(5)",
+    "pot = Potentiometer('B7')",
+    "pot = Potentiometer()",
+    "btn = Button()",
+    "btn = Button(2, on_click=1 + 1)",
+    "btn = Button(2, on_click='cb')",
+    "sv2 = Servo(9, min_angle=90, max_angle=10)",
+    "sv2 = Servo(9, min_pulse_us=2000, max_pulse_us=1000)",
+    "m2 = DCMotor(1, 2)",
+    "rgb2 = RGBLed(1, 2)",
+    "u = Ultrasonic(1)",
+    "u = Ultrasonic()",
+    "u = Ultrasonic(1, 2, sensor='HC-SR05')",
+    "u = Ultrasonic(1, 2, sensor=5)",
+    "u = Ultrasonic(1, 2, model=x)",
+    "lcd2 = LCD(rs=1, en=2)",
+    "rgb.set_color(1, 2)",
+    "rgb.fade(1, 2)",
+    "rgb.blink(1)",
+    "led.flash_pattern(5)",
+    "led.flash_pattern('101')",
+    "led.flash_pattern([1, 'a'])",
+    "led.flash_pattern(pat)",
+    "bz.play_tone()",
+    "bz.sweep(100)",
+    "bz.sweep(100, 200)",
+    "bz.melody()",
+    "bz.melody(5)",
+    "bz.melody('unknown tune')",
+    "bz.melody(name)",
+    "sv.write()",
+    "sv.write_us()",
+    "m.set_speed()",
+    "m.ramp(0.5)",
+    "m.ramp()",
+    "m.run_for(100)",
+    "m.run_for()",
+    "lcd.write(0, 0)",
+    "lcd.line(0)",
+    "lcd.line(0, 'x', align='middle')",
+    "lcd.line(0, 'x', align=5)",
+    "lcd.display()",
+    "lcd.backlight()",
+    "lcd.brightness()",
+    "lcd.glyph(0)",
+    "lcd.glyph(0, 5)",
+    "lcd.glyph(0, [1, 2, 3])",
+    "lcd.glyph(0, ['a'] * 8)",
+    "lcd.progress(0)",
+    "lcd.progress(0, 5, style='stars')",
+    "lcd.progress(0, 5, style=5)",
+    "lcd.animate('wave', 0, 'x')",
+    "lcd.animate('scroll', 0)",
+    "lcd.animate(5, 0, 'x')",
+    "xs = [1, 2]\nxs = 5",
+    "xs = [1, 2]\nxs = [1, 2, 3]",
+    "xs = [1, 2]\nxs = ['a', 'b']",
+    "xs = [1, [2]]",
+    "xs = [[1], ['a']]",
+    "xs = [i for i in range(3) if i]",
+    "xs = [i for i in [1, 2]]",
+    "xs = [i + j for i in range(2) for j in range(2)]",
+    "xs = [1, 2]\ny = xs[0:1]",
+    "x = f'{1!r}'",
+    "x = f'{1:>4}'",
+    "pin_mode(7)",
+    "pin_mode(7, OUTPUT, 1)" if False else "pin_mode(pin=7, mode=OUTPUT, extra=1)",
+    "digital_write(7)",
+    "digital_write(7, value=1, pin=7)",
+    "analog_write(7)",
+    "x = digital_read()",
+    "x = analog_read()",
+    "x = analog_read(pin=1, other=2)",
+    "mon.write(led.get_state(1))",
+    "mon.write(sv.read(1))",
+    "mon.write(mon.read('nowhere'))",
+    "mon.write(mon.read(emit='x'))",
+    "mon.write(unknown_device.measure_distance())",
+    "mon.write(led.get_speed())",
+    "a, b, c = 1, 2",
+    "x = helper(y=1)",
+    "x = max(y=1)",
+]
+
+
+def rejection_texts(rng: random.Random, count: int) -> List[str]:
+    return [PREAMBLE + rng.choice(REJECTION_TRIGGERS) + "\n" for _ in range(count)]
